@@ -21,8 +21,8 @@ IS_CHECK = "move_generation::is_check"
 CAN_CASTLE = "move_generation::can_castle"
 GEN_ROOT = "move_generation::generate_moves"
 
-St = namedtuple("St", "swaps last_move promo ep_resolved ep_cleared gate")
-FRESH = St(0, False, False, False, False, False)
+St = namedtuple("St", "swaps last_move promo ep_resolved ep_cleared gate sqw")
+FRESH = St(0, False, False, False, False, False, 0)
 
 
 def cone(facts, root):
@@ -85,6 +85,13 @@ class Site:
                     self.events.setdefault(loc, []).append(("moved", callee, i))
                     if callee and callee.endswith(PUSH_SUFFIX):
                         self.publishes.append((loc, "push", callee))
+            # publishing a copy of the tracked object (`v.push(L.clone())`) publishes its state too
+            if callee and callee.endswith(PUSH_SUFFIX) and len(t["args"]) == 2:
+                e = strip_refs(ex.operand(t["args"][1], loc))
+                if e[0] == "call" and e[1] == CLONE and root_local(e[2][0]) == L and strip_refs(e[2][0])[0] == "var":
+                    self.events.setdefault(loc, []).append(("moved", callee, 1))
+                    if (loc, "push", callee) not in self.publishes:
+                        self.publishes.append((loc, "push", callee))
         # gate edges: switch on is_check(&L, c)
         for bb in b.normal:
             t = b.term(bb)
@@ -135,6 +142,9 @@ class Site:
                     empties = rv[0] == "agg" and rv[2] == "Empty"
                     if empties and s.gate == "is_check":
                         s = s._replace(gate=False)
+                    if s.sqw >= 1:
+                        self.an.second_square_write.add((self, loc))
+                    s = s._replace(sqw=min(s.sqw + 1, 2))
         return [s]
 
     def edge_step(self, bb, succ, s):
@@ -167,6 +177,7 @@ class SuccessorAnalysis:
         self.sites = []
         self.ep_sets = set()
         self.ep_set_unclear = set()
+        self.second_square_write = set()
         self.results = {}   # site -> (before, at_return)
         self.delegate_inits = {}  # callee -> set of states at hand-over
         self._run()
@@ -179,7 +190,12 @@ class SuccessorAnalysis:
             d = t["dest"]
             if d["proj"]:
                 raise ShapeNotRecognised("clone into a projection in %s" % f)
-            out.append(Site(self, b, ex, bb, d["local"]))
+            site = Site(self, b, ex, bb, d["local"])
+            if site.src_local is not None and b.local_ty(site.src_local) == "board::BoardState":
+                # a copy of a successor under construction (`v.push(L.clone())`): the publish is
+                # attributed to L itself, the temporary copy is not a successor of its own
+                continue
+            out.append(site)
         return out
 
     def _precondition_gate(self, site):
@@ -319,6 +335,20 @@ def r2_3(ctx):
     """At every publish the en-passant target has been resolved (cleared or set for this move)."""
     n = _publish_rule(ctx, lambda s: s.ep_resolved, "ep_resolved")
     ctx.floor("publishes", n, 4)
+
+
+def r5_2_once(ctx):
+    """A successor object receives at most one raw square write (the en-passant removal or the
+    promotion): the XOR that accompanies it assumes what stood there when the object was created;
+    re-using one object for several successors (a scratch board updated in a loop) breaks that."""
+    an = get(ctx)
+    n = sum(1 for site in an.sites for evs in site.events.values() for ev in evs if ev[0] == "write" and ev[1][0] == "board")
+    for site, loc in sorted(an.second_square_write, key=lambda x: (x[0].name, x[1])):
+        ctx.ob("%s:second-raw-square-write" % site.name, False, site.b.where(loc),
+               "`%s` can execute twice on the same successor object (created at %s, outside this loop): the second time the square no longer holds the piece whose key is XORed out, so the keys of the later successors are wrong" % (
+                   site.b.text_at(loc)[:70], site.b.where(site.loc)))
+    ctx.ob("raw-square-writes-once-per-object", not an.second_square_write, "", "%d raw square writes on successors; each object is written at most once" % n, nontrivial=False)
+    ctx.floor("raw square writes on successors", n, 3)
 
 
 def r5_2_epclear(ctx):
